@@ -571,7 +571,7 @@ String Json::stripComments(const String& data)
       if (*src == '\\' && src[1])
       {
         *(dest++) = *(src++);
-        goto checkStr;
+        continue; // the loop step copies the escaped character; we are still inside the string literal
       }
       if (*src == '"')
       {
